@@ -203,8 +203,11 @@ func (check typecheck) shift(n *node) error {
 
 	var v0 constant.Value
 	if c0.typ.untyped && c0.rval.IsValid() {
-		v0 = constant.ToInt(c0.rval.Interface().(constant.Value))
-		c0.rval = reflect.ValueOf(v0)
+		// An untyped boolean constant holds a Go bool, which can not be shifted.
+		if c, ok := c0.rval.Interface().(constant.Value); ok {
+			v0 = constant.ToInt(c)
+			c0.rval = reflect.ValueOf(v0)
+		}
 	}
 
 	if !(c0.typ.untyped && v0 != nil && v0.Kind() == constant.Int || isInt(t0)) {
